@@ -100,7 +100,14 @@ Qed.
 Lemma prov_authorize cfg s a : prov (src s) (st s) (st (fst (authorize cfg s a))).
 Proof.
   unfold authorize. destruct (cf_par_enforced cfg); [apply prov_refl|].
-  destruct (clients s (az_client a)) as [cl|]; [|apply prov_refl]. apply prov_authorize_core.
+  destruct (clients s (az_client a)) as [cl|]; [|apply prov_refl].
+  destruct (az_rtype a); [apply prov_authorize_core| |].
+  - destruct (authorize_implicit_effect cfg s cl a) as [Ha [Hr [_ [_ [_ [_ [_ [_ [_ Hc]]]]]]]]].
+    repeat split; intros k r H; [left; congruence|left; congruence|].
+    destruct (Hc k true r H); [auto|right; left; assumption].
+  - destruct (authorize_hybrid_effect cfg s cl a) as [Ha [Hr [_ [_ [_ [_ [_ [_ [_ Hc]]]]]]]]].
+    repeat split; intros k r H; [left; congruence|left; congruence|].
+    destruct (Hc k true r H); [auto|right; left; assumption].
 Qed.
 
 Lemma src_same s s' :
@@ -407,7 +414,10 @@ Proof.
   destruct o; cbn [step]; try gr;
     try (new_flows_tac s grows_fresh_grant ltac:(gr); exact FGfact).
   - unfold authorize. destruct (cf_par_enforced cfg); [gr|].
-    destruct (clients s (az_client a)) as [cl|]; [|gr]. apply grows_authorize_core.
+    destruct (clients s (az_client a)) as [cl|]; [|gr].
+    destruct (az_rtype a); [apply grows_authorize_core| |].
+    + destruct (authorize_implicit_effect cfg s cl a) as [_ [_ [_ [_ [_ [Hn [Hk [Hl _]]]]]]]]. repeat split; assumption.
+    + destruct (authorize_hybrid_effect cfg s cl a) as [_ [_ [_ [_ [_ [Hn [Hk [Hl _]]]]]]]]. repeat split; assumption.
   - unfold redeem.
     destruct auth as [c|]; [|gr].
     destruct (clients s c) as [cl|]; [|gr].
@@ -520,7 +530,9 @@ Proof.
     try (new_flows_tac s fresh_grant_device ltac:(apply dev_keeps_eq; reflexivity); apply dev_keeps_eq; exact FGfact).
   - unfold authorize. destruct (cf_par_enforced cfg); [apply dev_keeps_eq; reflexivity|].
     destruct (clients s (az_client a)) as [cl|]; [|apply dev_keeps_eq; reflexivity].
-    apply dev_keeps_eq. apply authorize_core_device.
+    apply dev_keeps_eq. destruct (az_rtype a); [apply authorize_core_device| |].
+    + exact (proj1 (proj2 (proj2 (authorize_implicit_effect cfg s cl a)))).
+    + exact (proj1 (proj2 (proj2 (authorize_hybrid_effect cfg s cl a)))).
   - apply dev_keeps_eq. unfold redeem.
     destruct auth as [c|]; [|reflexivity].
     destruct (clients s c) as [cl|]; [|reflexivity].
@@ -603,24 +615,21 @@ Proof.
 Qed.
 
 (* ------------------------------------------------------------------ a dead family has no active token *)
-Lemma dead_introspect_access cfg s X key tampered scopes p :
-  dead (st s) X -> introspect_access cfg s key tampered scopes = Some p ->
-  forall r, find (access (st s)) key = Some r -> r_id r <> X.
-Proof. intros [Da _] _ r H. destruct key as [k|]; [eapply Da; eassumption|discriminate]. Qed.
-
 (* a credential of the log that belongs to request id X (minted for it) is reported inactive, whatever
    the hint, the required scopes and the presentation *)
 Theorem dead_credential_inactive cfg s X i e tampered h scopes :
-  Inv s -> dead (st s) X -> nth_error (log s) i = Some e -> i_rid e = X ->
+  Inv s -> dead (st s) X -> nth_error (log s) i = Some e -> i_rid e = X -> i_kind e <> KImplicit ->
   introspect cfg s {| p_ref := CRef i; p_tampered := tampered |} h scopes = None.
 Proof.
-  intros I [Da [Dr [Dc Dd]]] Hn Hrid.
+  intros I [Da [Dr [Dc Dd]]] Hn Hrid Hkind.
   assert (Ho : owner s (i_key e) = Some (i_kind e, X)).
   { rewrite <- Hrid. apply (inv_log_owner s I). eapply nth_error_In; eassumption. }
   assert (HA : introspect_access cfg s (Some (i_key e)) tampered scopes = None).
-  { unfold introspect_access. cbn [find]. destruct (access (st s) (i_key e)) as [r|] eqn:E; [|reflexivity].
-    exfalso. pose proof (inv_owner_access s I _ _ E) as Ho'. rewrite Ho in Ho'. injection Ho' as _ Hx.
-    eapply Da; eauto. }
+  { unfold introspect_access, lookup_access. destruct (access (st s) (i_key e)) as [r|] eqn:E.
+    - exfalso. pose proof (inv_owner_access s I _ _ E) as Ho'. rewrite Ho in Ho'. injection Ho' as _ Hx.
+      eapply Da; eauto.
+    - destruct (implicit (st s) (i_key e)) as [r|] eqn:Ei; [|reflexivity].
+      exfalso. pose proof (inv_owner_implicit s I _ _ Ei) as Ho'. rewrite Ho in Ho'. congruence. }
   assert (HR : introspect_refresh cfg s (Some (i_key e)) tampered scopes = None).
   { unfold introspect_refresh. cbn [find]. destruct (refresh (st s) (i_key e)) as [[[|] r]|] eqn:E; try reflexivity.
     exfalso. pose proof (inv_owner_refresh s I _ _ _ E) as Ho'. rewrite Ho in Ho'. injection Ho' as _ Hx.
@@ -682,23 +691,29 @@ Qed.
 (* accepted revocation by the owning client *)
 Lemma revoke_lookup_live s key h r :
   revoke_lookup s key h = Some r ->
-  exists k, key = Some k /\ (access (st s) k = Some r \/ refresh (st s) k = Some (true, r)).
+  exists k, key = Some k /\
+    (access (st s) k = Some r \/ (access (st s) k = None /\ implicit (st s) k = Some r) \/ refresh (st s) k = Some (true, r)).
 Proof.
-  unfold revoke_lookup. destruct key as [k|]; cbn [find]; [|destruct h; discriminate].
+  unfold revoke_lookup, lookup_access. destruct key as [k|]; cbn [find]; [|destruct h; discriminate].
   intros H. exists k. split; [reflexivity|].
-  destruct (refresh (st s) k) as [[[|] rr]|]; destruct (access (st s) k) as [ra|]; destruct h;
+  destruct (refresh (st s) k) as [[[|] rr]|]; destruct (access (st s) k) as [ra|]; destruct (implicit (st s) k) as [ri|]; destruct h;
     try discriminate; injection H as <-; auto.
 Qed.
 
+(* [endpoint_token s tok]: the presented credential is not an access token minted by the authorization endpoint *)
+Definition endpoint_token (s : state) (tok : pres) : Prop := forall k, key_of s tok = Some k -> implicit (st s) k = None.
+
 Theorem revoke_kills cfg s c cl tok h r :
   Inv s -> clients s c = Some cl -> revoke_lookup s (key_of s tok) h = Some r -> r_client r = c ->
+  endpoint_token s tok ->
   let res := revoke cfg s (Some c) tok h in
   o_err (snd res) = "" /\ dead (st (fst res)) (r_id r).
 Proof.
-  intros I Hc Hl Hcl. unfold revoke. rewrite Hc, Hl, Hcl, Nat.eqb_refl. cbn.
+  intros I Hc Hl Hcl Hep. unfold revoke. rewrite Hc, Hl, Hcl, Nat.eqb_refl. cbn.
   split; [reflexivity|].
-  destruct (revoke_lookup_live _ _ _ _ Hl) as [k [_ [Ha|Hr]]].
+  destruct (revoke_lookup_live _ _ _ _ Hl) as [k [Hk [Ha|[[_ Hi]|Hr]]]].
   - apply kill_dead; [assumption|exact (inv_access_code s I _ _ Ha)|exact (inv_access_device s I _ _ Ha)].
+  - rewrite (Hep k Hk) in Hi. discriminate.
   - apply kill_dead; [assumption|exact (inv_refresh_code s I _ _ _ Hr)|exact (inv_refresh_device s I _ _ _ Hr)].
 Qed.
 
@@ -755,10 +770,12 @@ Qed.
 
 (* ------------------------------------------------------------------ other grants are not touched by a kill *)
 Lemma revoke_access_frame s X k :
-  Inv s -> owner s k <> Some (KAccess, X) -> access (revoke_access (st s) X) k = access (st s) k.
+  Inv s -> (forall kd, owner s k <> Some (kd, X)) ->
+  access (revoke_access (st s) X) k = access (st s) k /\ implicit (revoke_access (st s) X) k = implicit (st s) k.
 Proof.
-  intros I Ho. unfold revoke_access. destruct (at_idx (st s) X) as [k0|] eqn:E; [|reflexivity].
-  cbn. rewrite upd_neq; [reflexivity|]. intros ->. apply Ho. exact (inv_at_idx_owner s I _ _ E).
+  intros I Ho. unfold revoke_access. destruct (at_idx (st s) X) as [k0|] eqn:E; [|auto].
+  assert (k <> k0) by (intros ->; destruct (inv_at_idx_owner s I _ _ E) as [H|H]; eapply Ho; exact H).
+  cbn. rewrite !upd_neq by assumption. auto.
 Qed.
 Lemma revoke_refresh_frame s X k :
   Inv s -> owner s k <> Some (KRefresh, X) -> refresh (fst (revoke_refresh (st s) X)) k = refresh (st s) k.
@@ -771,13 +788,14 @@ Qed.
 (* introspection of a credential only looks at the records under its key, the clock and the log *)
 Lemma introspect_ext cfg s s' p h scopes :
   log s' = log s -> now s' = now s ->
-  (forall k, key_of s p = Some k -> access (st s') k = access (st s) k /\ refresh (st s') k = refresh (st s) k) ->
+  (forall k, key_of s p = Some k -> access (st s') k = access (st s) k /\ implicit (st s') k = implicit (st s) k /\
+                                    refresh (st s') k = refresh (st s) k) ->
   introspect cfg s' p h scopes = introspect cfg s p h scopes.
 Proof.
-  intros Hl Hn Hk. unfold introspect, introspect_access, introspect_refresh, key_of. rewrite Hl, Hn.
+  intros Hl Hn Hk. unfold introspect, introspect_access, introspect_refresh, lookup_access, key_of. rewrite Hl, Hn.
   unfold key_of in Hk. destruct (p_ref p) as [i|]; cbn [find]; [|reflexivity].
   destruct (nth_error (log s) i) as [e|]; cbn [option_map find]; [|reflexivity].
-  destruct (Hk _ eq_refl) as [-> ->]. reflexivity.
+  destruct (Hk _ eq_refl) as [-> [-> ->]]. reflexivity.
 Qed.
 
 Theorem replay_frame cfg s c cl code redirect v vh k r i e tampered h scopes :
@@ -791,12 +809,15 @@ Proof.
   apply introspect_ext; [reflexivity|reflexivity|].
   intros k0 Hk0. unfold key_of in Hk0. cbn in Hk0. rewrite Hn in Hk0. injection Hk0 as <-.
   assert (Ho : owner s (i_key e) = Some (i_kind e, i_rid e)) by (apply (inv_log_owner s I); eapply nth_error_In; eassumption).
+  assert (Hno : forall kd, owner s (i_key e) <> Some (kd, r_id r)) by (intros kd; rewrite Ho; congruence).
   cbn [st set_store].
   destruct (revoke_refresh_tables (revoke_access (st s) (r_id r)) (r_id r)) as [_ [Ta _]].
+  assert (Ti : implicit (fst (revoke_refresh (revoke_access (st s) (r_id r)) (r_id r))) = implicit (revoke_access (st s) (r_id r))).
+  { unfold revoke_refresh. destruct (rt_idx _ _) as [k1|]; [destruct (refresh _ k1) as [[? ?]|]|]; reflexivity. }
   destruct (revoke_access_tables (st s) (r_id r)) as [_ [Tr _]].
-  split.
-  - rewrite Ta. apply revoke_access_frame; [assumption|]. rewrite Ho. congruence.
-  - pose proof (Inv_revoke_access s (r_id r) I) as I1.
-    pose proof (revoke_refresh_frame (set_store s (revoke_access (st s) (r_id r))) (r_id r) (i_key e) I1) as F.
-    cbn in F. rewrite F, Tr; [reflexivity|]. rewrite Ho. congruence.
+  destruct (revoke_access_frame s (r_id r) (i_key e) I Hno) as [Fa Fi].
+  split; [rewrite Ta; exact Fa|]. split; [rewrite Ti; exact Fi|].
+  pose proof (Inv_revoke_access s (r_id r) I) as I1.
+  pose proof (revoke_refresh_frame (set_store s (revoke_access (st s) (r_id r))) (r_id r) (i_key e) I1) as F.
+  cbn in F. rewrite F, Tr; [reflexivity|]. rewrite Ho. congruence.
 Qed.
